@@ -1,5 +1,6 @@
 """C13 -- package visibility follows mask, keyword and license configuration (DESIGN.md section 4, C13)."""
 import itertools
+import os
 import random
 import types
 import z3
@@ -272,7 +273,7 @@ def t_empty_entry(ex):
         return
     if stable_system:
         got = seen.get("incremental")
-        ok = got is not None and len(got) == 2 and got[0][0] == "restrict-1" and got[0][1] == "~amd64" and got[1][0] == "restrict-2" and got[1][1] is full
+        ok = got is not None and len(got) == 2 and got[0][0] == "restrict-1" and tuple(got[0][1]) == ("~amd64",) and not isinstance(got[0][1], str) and got[1][0] == "restrict-2" and got[1][1] is full
         ex.oblige(f"{P}.ensures.empty_entry_means_unstable_arch_on_a_stable_system", ok)
     else:
         got = seen.get("plain")
@@ -417,7 +418,10 @@ def enum_filters(seed):
                                                         f"(call round {rnd}, same ACCEPT_LICENSE list object) -> {got}, reference {want}"})
     # keywords
     kw_sets = [("amd64",), ("~amd64",), ("~amd64", "x86"), ("-*", "~x86"), (), ("-amd64", "~x86")]
-    accept_entries = [("a/b", ()), ("a/b", ("**",)), ("=a/b-1", ("~*",)), ("a/c", ("*",)), ("a/b", ("~x86",)), ("a/b", ("-~amd64", "x86"))]
+    # "*/*" stands for the always-matching restriction a line '*/*' (or '*') is parsed to
+    accept_entries = [("a/b", ()), ("a/b", ("**",)), ("=a/b-1", ("~*",)), ("a/c", ("*",)), ("a/b", ("~x86",)), ("a/b", ("-~amd64", "x86")), ("*/*", ()), ("*/*", ("~x86",))]
+    mk_r = lambda a: packages.AlwaysTrue if a == "*/*" else atom(a)
+    hits = lambda a, pkg: a == "*/*" or atom(a).match(pkg)
     prof_kw = [(), (("a/b", ("~amd64",)),), (("=a/b-2", ("x86",)),)]
     # the global ACCEPT_KEYWORDS may itself carry the wildcards ("**" in make.conf is the usual way to accept everything)
     for default in (("amd64",), ("amd64", "~amd64"), ("amd64", "**"), ("*",), ("amd64", "~*")):
@@ -427,15 +431,16 @@ def enum_filters(seed):
                     for pk in prof_kw:
                         fake = types.SimpleNamespace(unstable_arch="~amd64", profile=types.SimpleNamespace(keywords=tuple((atom(a), l) for a, l in pk)))
                         fake._apply_keywords_filter = types.MethodType(domain._apply_keywords_filter, fake)
-                        restrict = domain._make_keywords_filter(fake, set(default), tuple((atom(a), l) for a, l in ent))
+                        restrict = domain._make_keywords_filter(fake, set(default), tuple((mk_r(a), l) for a, l in ent))
                         for cpv, _ in pkgs:
                             pkg = _fake_pkg(cpv, kws, "GPL")
                             cases += 1
                             got = restrict.match(pkg)
                             stable_sys = "~amd64" not in default
                             allowed = set(default)
-                            for a, l in ent:
-                                if atom(a).match(pkg):
+                            # entries for every package take effect before entries for particular ones (as in portage), each group in its written order
+                            for a, l in sorted(ent, key=lambda e: e[0] != "*/*"):
+                                if hits(a, pkg):
                                     toks = l if (l or not stable_sys) else ("~amd64",)
                                     if stable_sys:
                                         for t in toks:
@@ -460,9 +465,51 @@ def enum_filters(seed):
             "cases": cases, "failures": fails}
 
 
+def enum_license_groups(seed):
+    """the @group table the license filter works with, as the repository reads it from profiles/license_groups: groups that name other groups
+    (up to three levels, a group naming two others), the lines in every order -- each group comes out as the licenses it reaches"""
+    import shutil
+    import tempfile
+    from pkgcore.ebuild.repo_objs import Licenses
+    base = {"LEAF": ["GPL-2", "MIT"], "MID": ["@LEAF", "BSD"], "TOP": ["@MID", "Apache-2.0"], "OTHER": ["Vendor"], "BOTH": ["@OTHER", "@MID"], "WIDE": ["@TOP", "@OTHER", "ISC"]}
+
+    def closure(name, seen=()):
+        out = set()
+        for m in base[name]:
+            if m.startswith("@"):
+                if m[1:] not in seen:
+                    out |= closure(m[1:], seen + (name,))
+            else:
+                out.add(m)
+        return out
+    want = {k: closure(k) for k in base}
+    scratch = tempfile.mkdtemp(prefix="c13.", dir=os.environ.get("PYVC_SCRATCH", "/var/tmp"))
+    cases, fails = 0, []
+    try:
+        os.makedirs(os.path.join(scratch, "profiles"))
+        os.makedirs(os.path.join(scratch, "licenses"))
+        for order in itertools.permutations(sorted(base)):
+            cases += 1
+            with open(os.path.join(scratch, "profiles/license_groups"), "w") as f:
+                f.write("".join(f"{k} {' '.join(base[k])}\n" for k in order))
+            try:
+                got = {k: set(v) for k, v in Licenses(types.SimpleNamespace(location=scratch)).groups.items()}
+            except Exception as e:
+                got = f"{type(e).__name__}: {e}"
+            if got != want and len(fails) < 4:
+                diff = {k: sorted(got.get(k, ())) for k in want if not isinstance(got, str) and got.get(k) != want[k]} if not isinstance(got, str) else got
+                fails.append({"model": {"line_order": list(order)}, "detail": f"license_groups with the lines in the order {list(order)}: groups read as {diff}; each group should hold the licenses it reaches: "
+                                                                            f"{ {k: sorted(v) for k, v in want.items() if isinstance(got, str) or got.get(k) != v} }"})
+    finally:
+        shutil.rmtree(scratch, ignore_errors=True)
+    return {"name": "C13.license_groups.bounded_enumeration", "bound": "6 license groups nested up to three levels (one naming two groups, one naming three), the lines of profiles/license_groups in all 720 orders, read through the real Licenses object",
+            "cases": cases, "failures": fails}
+
+
 def tasks():
     return [
         Task("C13._apply_license_filter", t_license, [(FILE, "domain._apply_license_filter")], fallback={"unroll": 2}, enumerate=enum_filters),
+        Task("C13.license_groups", None, [("src/pkgcore/ebuild/repo_objs.py", "Licenses.groups"), ("src/pkgcore/ebuild/repo_objs.py", "Licenses._expand_groups")], enumerate=enum_license_groups),
         Task("C13._apply_keywords_filter", t_keywords, [(FILE, "domain._apply_keywords_filter")], fallback={"unroll": 2}),
         Task("C13._make_keywords_filter", t_empty_entry, [(FILE, "domain._make_keywords_filter")]),
         Task("C13.generate_filter", t_generate, [(FILE, "generate_filter")]),
